@@ -163,6 +163,10 @@ func famVariants() []famVariant {
 			}
 		}},
 		{"outbase", func(o *api.BuildOptions) { o.Outbase = "." }},
+		// path styles of the metafile and of the path comments in the code are independent options
+		{"abs-paths-metafile", func(o *api.BuildOptions) { o.AbsPaths = api.MetafileAbsPath }},
+		{"abs-paths-code", func(o *api.BuildOptions) { o.AbsPaths = api.CodeAbsPath }},
+		{"abs-paths-code-metafile-min", func(o *api.BuildOptions) { o.AbsPaths = api.CodeAbsPath | api.MetafileAbsPath; o.MinifyWhitespace = true }},
 	}
 }
 
